@@ -151,7 +151,10 @@ func replay(args []string) error {
 	switch *mode {
 	case "c08":
 		fins = []Fin{{Kind: "find"}, {Kind: "count"}, {Kind: "first"}, {Kind: "pluck"}, {Kind: "update"}, {Kind: "updatecol"}, {Kind: "delete"},
-			{Kind: "find", Unscoped: true}, {Kind: "delete", Unscoped: true}}
+			{Kind: "find", Unscoped: true}, {Kind: "delete", Unscoped: true},
+			// a second finisher on the same chain value (the pagination idiom Count + Find): the filter a first
+			// finisher added must still be there
+			{Kind: "find", Prior: "count"}, {Kind: "count", Prior: "count"}, {Kind: "pluck", Prior: "count"}, {Kind: "count", Prior: "find"}}
 		softs = []bool{true}
 	case "c09":
 		fins = []Fin{{Kind: "update"}, {Kind: "updates"}, {Kind: "updatecol"}, {Kind: "updatecols"}, {Kind: "delete"},
